@@ -8,7 +8,9 @@ ASSUMPTIONS = [
 ]
 
 BODIES = ["'aa'", "at least 1 'a'", "'a' maybe 'a'", "'ab' or 'a'", "any any", "between 1 and 2 'a' 'b'",
-          "at least 1 ('a' or 'b') fewest 'a'", "'a' = x maybe x", "not 'b' maybe 'a'", "letter word end"]
+          "at least 1 ('a' or 'b') fewest 'a'", "'a' = x maybe x", "not 'b' maybe 'a'", "letter word end",
+          # bodies that can match the empty string: an empty match is never a match, under any amount clause
+          "maybe 'a'", "at least 0 'a'", "at most 2 'b'", "maybe 'a' maybe 'b'", "at least 0 ('a' or 'b') fewest"]
 
 
 def clauses(K):
